@@ -24,6 +24,8 @@ def run(ctx):
     res.assumptions = ["observation at the client sockets with the barrier protocol (DESIGN 2.3)",
                        "snapshot hook reads the state under the server's own lock",
                        "reference model of DESIGN 2.4 encodes the statement; unspecified choices are resynchronised, not judged"]
+    # "creates the channel and makes the joiner its founder": also when several ask for the same new name at once
+    common.run_storm_kinds(ctx, res, "c16:", ["firstjoin", "order", "firstjoin"], 25, 150, jobs=6, jitter=2000)
     return res
 
 
